@@ -1218,11 +1218,17 @@ func (h *RequestHeader) InitContentLengthWithValue(contentLength int) {
 	h.contentLength = contentLength
 }
 
+// hasPrefixFold reports whether b begins with prefix; media types and the names of
+// their parameters are case-insensitive.
+func hasPrefixFold(b, prefix []byte) bool {
+	return len(b) >= len(prefix) && bytes.EqualFold(b[:len(prefix)], prefix)
+}
+
 // MultipartFormBoundary returns boundary part
 // from 'multipart/form-data; boundary=...' Content-Type.
 func (h *RequestHeader) MultipartFormBoundary() []byte {
 	b := h.ContentType()
-	if !bytes.HasPrefix(b, bytestr.MIMEFormData) {
+	if !hasPrefixFold(b, bytestr.MIMEFormData) {
 		return nil
 	}
 	b = b[len(bytestr.MIMEFormData):]
@@ -1237,7 +1243,7 @@ func (h *RequestHeader) MultipartFormBoundary() []byte {
 			n++
 		}
 		b = b[n:]
-		if !bytes.HasPrefix(b, bytestr.StrBoundary) {
+		if !hasPrefixFold(b, bytestr.StrBoundary) {
 			if n = bytes.IndexByte(b, ';'); n < 0 {
 				return nil
 			}
